@@ -48,6 +48,9 @@ def main(pid):
         if thorough and len(scen) > 250000:
             rnd.shuffle(scen)
             scen = scen[:250000]
+        # every 9th scenario once more with more than MAX_MATCH_CHARS of uninterrupted prose in front of every
+        # reference (the antecedent scan then works on a truncated window)
+        scen = scen + [[dict(it, filler=it["kind"] != "full") for it in sc] for sc in scen[::9]]
         obs = vlib.impl_map("drv_extract", "run_scenarios", scen, common={"cases": cases})
         fails, drifts = tlc_judge("Trace_Scenario", "Trace_Scenario.cfg", obs, ev, name, chunk=40000)
         total += len(obs)
